@@ -11,7 +11,8 @@ namespace Atto
 local notation "L" => Consts.maxLineLen
 local notation "CL" => Consts.chunkSizeLineLimit
 
-/-- (6) a chunked body cut strictly inside a chunk or inside the last-chunk (then EOF, a
+/-- (6) a chunked body cut strictly inside a chunk or inside the last-chunk — anywhere up to before
+    the LF of the empty line that ends its trailer section, if any — (then EOF, a
     non-Interrupted I/O error followed by anything, or a stall): no read with a non-empty buffer ever
     returns `Ok(0)`, nothing panics, the bytes handed out are a prefix of the data of the complete
     chunks followed by the data `d` of the cut chunk, and the failure is latched. -/
@@ -54,6 +55,30 @@ example := C02_chunked_cut Ex.headTE [Ex.chunks[0]] (Ex.chunks[1].enc.take 9)
   (by decide +kernel) (by decide +kernel) (by decide +kernel) (by decide +kernel)
   (.inl ⟨Ex.chunks[1], by decide +kernel, by decide +kernel, Ex.chunks[1].enc.drop 9, by decide +kernel⟩)
   (.inr (.inl ⟨104, [.byte 1, .byte 2], by decide, rfl⟩))
+  (by decide +kernel)
+
+/-- non-vacuity, cut inside the trailer section: both chunks complete, the last-chunk `00;q` complete,
+    the stream ends (EOF) inside the first of two trailer field lines (20 of the 34 bytes of the
+    last-chunk with its trailer section) -/
+example := C02_chunked_cut Ex.headTE Ex.chunks (Ex.lastT.enc.take 20) []
+  (Ex.seg (Ex.headTE.render ++ encChunks Ex.chunks ++ Ex.lastT.enc.take 20)) 8 4 100 .get
+  [0, 3, 100, 1, 5, 5, 0, 2]
+  (by decide +kernel) (by decide) (by decide) (by decide +kernel) (by decide +kernel)
+  (by decide +kernel) (by decide +kernel) (by decide +kernel) (by decide +kernel)
+  (.inr ⟨Ex.lastT, by decide +kernel, by decide +kernel, Ex.lastT.enc.drop 20, by decide +kernel⟩)
+  (.inl rfl)
+  (by decide +kernel)
+
+/-- non-vacuity, cut behind the trailer section: everything but the LF of the final empty line has
+    arrived, then the transport stalls -/
+example := C02_chunked_cut Ex.headTE Ex.chunks (Ex.lastT.enc.take 33) [.pause, .byte 10]
+  (Ex.seg (Ex.headTE.render ++ encChunks Ex.chunks ++ Ex.lastT.enc.take 33) ++ [.pause, .data [10]])
+  8 4 100 .get
+  [0, 3, 100, 1, 5, 5, 0, 2]
+  (by decide +kernel) (by decide) (by decide) (by decide +kernel) (by decide +kernel)
+  (by decide +kernel) (by decide +kernel) (by decide +kernel) (by decide +kernel)
+  (.inr ⟨Ex.lastT, by decide +kernel, by decide +kernel, Ex.lastT.enc.drop 33, by decide +kernel⟩)
+  (.inr (.inr ⟨[.byte 10], rfl⟩))
   (by decide +kernel)
 
 /-- (7) `Content-Length: n` but the connection is closed after `pre`, fewer than `n` bytes: no read
